@@ -1,5 +1,5 @@
 (* C06: the visible text of Spec/CueSpec.v (`vis`: per region, per paragraph, the tokens of the visible leaf chains) holds
-   exactly the characters of the leaves C01's per-leaf specification selects (`leaves_spec`) — so the text theorems of
+   exactly the non-blank characters of the leaves C01's per-leaf specification selects (`leaves_spec`) — so the text theorems of
    Proofs/C06/Text.v, stated over snapshot leaves, are statements about `vis`. *)
 From TT Require Import Model.Doc Gen.StyleTables Model.Isd Model.SigTimes Model.IsdFilters Spec.IsdSpec Spec.CueSpec.
 From TT Require Import Model.TimeCode Gen.CueTables Model.CueWriter Model.CueTriggers.
@@ -10,20 +10,46 @@ Definition tok_chars (l : list tok) : text := flat_map (fun k => match k with TC
 Lemma tok_chars_app a b : tok_chars (a ++ b) = tok_chars a ++ tok_chars b.
 Proof. apply flat_map_app. Qed.
 
-Lemma tok_chars_text pre : forall t, tok_chars (map (char_tok pre) t) = nonspace t.
+(* the characters that are not blank (white space in the wide sense of Spec/CueSpec.v) *)
+Definition nb (l : text) : text := filter (fun c => negb (blank_char c)) l.
+Lemma nb_app a b : nb (a ++ b) = nb a ++ nb b.
+Proof. apply filter_app. Qed.
+Lemma nb_flat_map {A} (f : A -> text) l : nb (flat_map f l) = flat_map (fun x => nb (f x)) l.
+Proof. induction l as [|x l IH]; [reflexivity|]. cbn [flat_map]. rewrite nb_app, IH. reflexivity. Qed.
+Lemma space_blank c : is_space c = true -> blank_char c = true.
+Proof. unfold is_space. intros H. repeat (apply orb_true_iff in H as [H|H]); apply Z.eqb_eq in H; subst c; reflexivity. Qed.
+Lemma nb_nonspace t : nb (nonspace t) = nb t.
+Proof.
+  induction t as [|c t IH]; [reflexivity|]. unfold nonspace, nb in *. cbn [filter]. destruct (is_space c) eqn:E; cbn [negb].
+  - rewrite (space_blank c E). cbn [negb]. exact IH.
+  - cbn [filter]. destruct (negb (blank_char c)); [f_equal|]; exact IH.
+Qed.
+(* blank and str.isspace are the same set of code points *)
+Lemma py_isspace_blank c : py_isspace c = blank_char c.
+Proof. reflexivity. Qed.
+Lemma visc_nb l : visc (nb l) = visc l.
+Proof.
+  unfold visc, nb, visible. induction l as [|c l IH]; [reflexivity|]. cbn [filter]. rewrite <- py_isspace_blank.
+  destruct (py_isspace c) eqn:E; cbn [negb]; [exact IH|]. cbn [filter]. rewrite E. cbn [negb]. f_equal. exact IH.
+Qed.
+
+Lemma tok_chars_text pre : forall t, tok_chars (map (char_tok pre) t) = nb t.
 Proof.
   induction t as [|c t IH]; [reflexivity|]. cbn [map]. change (tok_chars (char_tok pre c :: map (char_tok pre) t))
     with ((match char_tok pre c with TChr x => [x] | _ => [] end) ++ tok_chars (map (char_tok pre) t)).
-  rewrite IH. unfold nonspace. cbn [filter]. unfold char_tok. destruct (is_space c); cbn [negb]; [|reflexivity].
-  destruct (pre && ((c =? 10) || (c =? 13))); reflexivity.
+  rewrite IH. unfold nb. cbn [filter]. unfold char_tok. destruct (is_space c) eqn:E.
+  - rewrite (space_blank c E). cbn [negb]. destruct (pre && ((c =? 10) || (c =? 13))); reflexivity.
+  - destruct (blank_char c); reflexivity.
 Qed.
 
-(* one chain: the tokens of its leaf are the characters of the leaf *)
-Lemma chain_toks_leaf r c : c <> [] -> tok_chars (chain_toks c) = flat_map leaf_chars (leaf_of (last c r)).
+(* one chain: the tokens of its leaf are the non-blank characters of the leaf *)
+Lemma chain_toks_leaf r c : c <> [] -> tok_chars (chain_toks c) = nb (flat_map leaf_chars (leaf_of (last c r))).
 Proof.
   intros Hc. unfold chain_toks. destruct c as [|a0 c0] using rev_ind; [congruence|]. clear IHc0.
   rewrite rev_unit, last_last. unfold leaf_of. destruct (e_kind a0); try reflexivity.
-  rewrite tok_chars_text. destruct (nonspace (e_text a0)); [reflexivity|]. cbn [flat_map leaf_chars]. rewrite app_nil_r. reflexivity.
+  rewrite tok_chars_text. destruct (nonspace (e_text a0)) eqn:En.
+  - rewrite <- nb_nonspace, En. reflexivity.
+  - cbn [flat_map leaf_chars]. rewrite app_nil_r, <- En. symmetry. apply nb_nonspace.
 Qed.
 
 (* all Br/Text leaves sit inside paragraphs *)
@@ -56,18 +82,18 @@ Proof. induction l as [|x l IH]; [reflexivity|]. cbn [concat map]. rewrite filte
 
 Lemma group_toks_leaves d t r sel : forall g, (forall c, In c g -> c <> []) ->
   tok_chars (flat_map chain_toks (filter (fun c => chain_visible d t sel root_interval None c && (true || negb (is_annotation c))) g)) =
-  flat_map leaf_chars (flat_map (fun c => leaf_of (last c r)) (filter (chain_visible d t sel root_interval None) g)).
+  nb (flat_map leaf_chars (flat_map (fun c => leaf_of (last c r)) (filter (chain_visible d t sel root_interval None) g))).
 Proof.
   induction g as [|c g IHg]; intros Hg; [reflexivity|]. cbn [filter orb]. rewrite andb_true_r.
   destruct (chain_visible d t sel root_interval None c).
-  - cbn [flat_map]. rewrite tok_chars_app, flat_map_app, (chain_toks_leaf r c (Hg c (or_introl eq_refl))). f_equal.
+  - cbn [flat_map]. rewrite tok_chars_app, flat_map_app, nb_app, (chain_toks_leaf r c (Hg c (or_introl eq_refl))). f_equal.
     apply IHg. intros c' Hc'. apply Hg. right. exact Hc'.
   - apply IHg. intros c' Hc'. apply Hg. right. exact Hc'.
 Qed.
 
 Theorem region_toks_leaves d t r sel :
   match d_body d with Some b => leaves_in_p b = true | None => True end ->
-  tok_chars (region_toks true d t r sel) = flat_map leaf_chars (leaves_spec d t r sel).
+  tok_chars (region_toks true d t r sel) = nb (flat_map leaf_chars (leaves_spec d t r sel)).
 Proof.
   intros Hb. unfold region_toks, leaves_spec.
   destruct (is_active t (resolve root_interval (e_begin r) (e_end r)) && displayed d t (resolve root_interval (e_begin r) (e_end r)) r); [|reflexivity].
@@ -76,7 +102,7 @@ Proof.
   rewrite <- (pgroups_chains b Hb), filter_concat. revert Hcn. generalize (pgroups b). intros G Hcn.
   assert (Hcn' : forall g c, In g G -> In c g -> c <> []) by (intros g c Hg Hc; apply Hcn, in_concat; exists g; split; assumption).
   clear Hcn. induction G as [|g G IH]; [reflexivity|]. cbn [flat_map map concat].
-  rewrite !tok_chars_app, !flat_map_app. cbn [tok_chars flat_map app]. rewrite app_nil_r.
+  rewrite !tok_chars_app, !flat_map_app, nb_app. cbn [tok_chars flat_map app]. rewrite app_nil_r.
   rewrite IH by (intros g' c Hg' Hc; apply (Hcn' g' c); [right; exact Hg' | exact Hc]). f_equal.
   apply group_toks_leaves. intros c Hc. apply (Hcn' g c); [left; reflexivity | exact Hc].
 Qed.
@@ -84,13 +110,13 @@ Qed.
 (* the whole visible text of the specification at t = the leaves C01's specification selects, region by region *)
 Theorem vis_leaves d t :
   match d_body d with Some b => leaves_in_p b = true | None => True end ->
-  tok_chars (vis true d t) = flat_map leaf_chars (flat_map (fun r => leaves_spec d t (eattrs r) (region_sel d r)) (doc_regions d)).
+  tok_chars (vis true d t) = nb (flat_map leaf_chars (flat_map (fun r => leaves_spec d t (eattrs r) (region_sel d r)) (doc_regions d))).
 Proof.
   intros Hb. unfold vis, spec_regions, doc_regions, region_sel. destruct (d_regions d) as [|r0 l0].
   - cbn [flat_map]. rewrite !app_nil_r, tok_chars_app. cbn [tok_chars flat_map app]. rewrite app_nil_r.
     apply (region_toks_leaves d t spec_default_region None Hb).
   - generalize (r0 :: l0). intros l. induction l as [|r l IH]; [reflexivity|]. cbn [map flat_map fst snd].
-    rewrite !tok_chars_app, flat_map_app, IH. cbn [tok_chars flat_map app]. rewrite app_nil_r. f_equal. apply (region_toks_leaves d t (eattrs r) _ Hb).
+    rewrite !tok_chars_app, flat_map_app, nb_app, IH. cbn [tok_chars flat_map app]. rewrite app_nil_r. f_equal. apply (region_toks_leaves d t (eattrs r) _ Hb).
 Qed.
 
 (* C06, end to end for an (uncached) snapshot: what the SubRip writer puts into the cues of the snapshot at t is the visible text
@@ -105,7 +131,7 @@ Proof.
   intros Hk Hb Hi Hs Hok Hc.
   assert (Hb1 : match d_body d with Some bd => leaf_wf bd = true | None => True end) by (destruct (d_body d); [apply Hb | exact I]).
   assert (Hb2 : match d_body d with Some bd => leaves_in_p bd = true | None => True end) by (destruct (d_body d); [apply Hb | exact I]).
-  rewrite (vis_leaves d t Hb2), <- (isd_leaves d t regions Hk Hb1 Hi).
+  rewrite (vis_leaves d t Hb2), visc_nb, <- (isd_leaves d t regions Hk Hb1 Hi).
   destruct (Proofs.C06.Loop.srt_add_isd_spec fmt b en _ n cs n' Hc) as [_ H]. rewrite (H Hok).
   destruct srt_filters_form as (c0 & d0 & Hf). rewrite Hf, (filters_preserve_text true c0 d0 regions Hs).
   unfold leaves_text. rewrite <- (flat_map_flat_map shown_leaves leaf_chars). reflexivity.
